@@ -472,6 +472,18 @@ def validation_violation(decl, text, bad, mode):
                  + f' (graph: {fmt_decl(decl)})')}
 
 
+def swap_pre_exec(text: str) -> str:
+    return (text.replace('submit_failed', '\0').replace('expired',
+            'submit_failed').replace('\0', 'expired'))
+
+
+def swap_decl(decl):
+    out = dict(decl)
+    out['expired'], out['submit-failed'] = (
+        decl['submit-failed'], decl['expired'])
+    return out
+
+
 def fmt_decl(decl):
     return ', '.join(
         f"{t}{'?' if h == 'opt' else ''}" for t, h in decl.items() if h
@@ -535,10 +547,31 @@ def _work_validation(idx_chunk):
         tree = trs[i]
         text = render(tree, 'min')
         cls, _vac = classify(tree)
+        text_sw = swap_pre_exec(text)
         for d, decl in enumerate(decls):
             inc = consistency(decl, cls)
             acc = direct_check(cfg, f'a{d}', text)
             stats['accepted' if acc else 'rejected'] += 1
+            # the statement treats the two pre-execution outcomes alike:
+            # exchanging expired and submit-failed in both the graph
+            # declaration and the expression must not change the verdict
+            # (each unordered pair of declarations judged once)
+            dsw = _G['dswap'][d]
+            if d < dsw:
+                acc_sw = direct_check(cfg, f'a{dsw}', text_sw)
+                stats['symmetry_pairs'] = stats.get('symmetry_pairs', 0) + 1
+                if acc_sw != acc and len(bad) < 300:
+                    a_d, a_t = (decl, text) if acc else (decls[dsw], text_sw)
+                    r_d, r_t = (decls[dsw], text_sw) if acc else (decl, text)
+                    bad.append({
+                        'sig': 'validation:expired/submit-failed-asymmetry',
+                        'expr': a_t, 'decl': a_d,
+                        'what': (
+                            f'completion = {a_t!r} is accepted with the '
+                            f'graph declaring {fmt_decl(a_d)}, but the same '
+                            f'with expired and submit-failed exchanged '
+                            f'({r_t!r}; graph: {fmt_decl(r_d)}) is '
+                            f'rejected')})
             if inc:
                 stats['inconsistent'] += 1
                 for _cv, cell in inc:
@@ -609,7 +642,9 @@ def run(ctx: Ctx) -> Result:
                     and decl['failed'] is None):
                 raise HarnessError(
                     f'declaration {fmt_decl(decl)} gave {trig}={flag}')
-    _G.update(trees=trs, cfg=cfg, decls=decls, per_cell=per_cell)
+    dswap = [decls.index(swap_decl(decl)) for decl in decls]
+    _G.update(trees=trs, cfg=cfg, decls=decls, per_cell=per_cell,
+              dswap=dswap)
 
     nchunk = ctx.workers * 6
     vios = []
@@ -649,8 +684,8 @@ def run(ctx: Ctx) -> Result:
             _work_validation, chunks(range(n_val_trees), nchunk),
             ctx.workers):
         vios.extend(bad)
-        for k in stats:
-            stats[k] += st[k]
+        for k in st:
+            stats[k] = stats.get(k, 0) + st[k]
         for k, v in ce.items():
             cells[k] = cells.get(k, 0) + v
         for k, v in fb.items():
